@@ -60,6 +60,15 @@ theorem str_nil_beq (x : Str) : (([] : Str) == x) = x.isEmpty := by cases x <;> 
 theorem str_bne_nil (x : Str) : (x != ([] : Str)) = !x.isEmpty := by cases x <;> rfl
 theorem str_nil_bne (x : Str) : (([] : Str) != x) = !x.isEmpty := by cases x <;> rfl
 
+/-- Go's `+` on strings (the prelude's `HAdd Str Str Str`) is `++`: `"(" + e + ")"` for `fmt.Sprintf("(%s)", e)` -/
+theorem str_add (a b : Str) : (a + b : Str) = a ++ b := rfl
+
+/-- `x == y` / `x != y` on strings as the decision of `x = y`: a proof then splits on the proposition once, whichever
+    polarity the code tests -/
+theorem str_beq_decide (a b : Str) : (a == b) = decide (a = b) := by by_cases h : a = b <;> simp [h]
+theorem str_bne_decide (a b : Str) : (a != b) = !decide (a = b) := by by_cases h : a = b <;> simp [h]
+theorem str_isEmpty_decide (a : Str) : a.isEmpty = decide (a = []) := by cases a <;> simp
+
 /-- a string with a non-empty prefix is not empty: `len(s) > 0 && strings.HasPrefix(s, "{")` is `strings.HasPrefix(s, "{")` -/
 theorem nonempty_and_hasPrefix (c : Char) (p s : Str) :
     (!s.isEmpty && Str.hasPrefix (c :: p) s) = Str.hasPrefix (c :: p) s := by
